@@ -136,6 +136,9 @@ func (w *webWriter) flushWithTrailer() {
 			return // nothing
 		}
 	}
+	if c, ok := w.resp.(io.Closer); ok {
+		c.Close() // flush the base64 encoder's partial quantum
+	}
 	w.Flush()
 }
 
